@@ -228,6 +228,19 @@ func c12Run(m *meta.Module, strategy int, entry int, del bool) {
 	}
 	c12Monitor(dst, "target")
 	c12Monitor(src, "source")
+	// across the two stores: once a callback of the source has failed, the target receives no further write
+	failSeq := 0
+	for _, e := range src.log {
+		if e.fail {
+			failSeq = e.seq
+		}
+	}
+	if failSeq > 0 {
+		for _, e := range dst.log {
+			isWrite := (e.kind == "field" && e.write) || ((e.kind == "child" || e.kind == "next") && (e.isNew || e.del))
+			vpAssertK("C12-source-failure-reported-late", true, !(isWrite && e.seq > failSeq), "no write reaches the target after a callback of the source has failed")
+		}
+	}
 	// nodes outside the edit never hear about it
 	otherID := dst.root.kids["other"].id
 	for _, e := range dst.log {
